@@ -243,6 +243,10 @@ def facets(case, bu):
     syms = set()
     pname = {}
     for name, gots in ob.symbols.items():
+        if name.startswith(".L") and name.rsplit("_", 1)[-1].isdigit():
+            # temporary label: the suffix numbers the patch invocations of
+            # one context, which differs between the two runs by design
+            name = name.rsplit("_", 1)[0]
         for g in gots:
             if g[0] == "pos":
                 syms.add((name, "pos", g[1], g[2]))
@@ -300,7 +304,10 @@ def facets(case, bu):
     for si, row in enumerate(bu.intervals):
         for ii, bi in enumerate(row):
             for off, e in bi.symbolic_expressions.items():
-                exprs.add((si, ii, off, tuple(s.name for s in e.symbols),
+                exprs.add((si, ii, off, tuple(
+                    s.name.rsplit("_", 1)[0] if s.name.startswith(".L")
+                    and s.name.rsplit("_", 1)[-1].isdigit() else s.name
+                    for s in e.symbols),
                            getattr(e, "offset", None),
                            tuple(sorted(str(a) for a in e.attributes))))
     boundaries = {(ob.blockpos(b), b.size) for b in ob.code_blocks}
